@@ -81,20 +81,21 @@ let pev_of tok =
 
 (* ---------- base leecher with its real loop (mode L): linearizability + trace validation ---------- *)
 type litem =
-  | LTick of string list                         (* callback tokens (without the t: prefix) *)
-  | LApi of string * string list * string         (* op name, callback tokens, return token *)
+  | LTick of string list                              (* callback tokens (without the t: prefix) *)
+  | LApi of string * string list * string * int * bool
+      (* op name, callback tokens, return token, position of the return marker, floats (no callback) *)
 
 let starts_with pre s = String.length s >= String.length pre && String.sub s 0 (String.length pre) = pre
 let drop k s = String.sub s k (String.length s - k)
 
-(* split the raw log into items; [atomic] is false when a callback of an API call falls inside an
-   unfinished ticker Routine or the other way round *)
+(* split the raw log into items (position of the first callback, item); [atomic] is false when a
+   callback of an API call falls inside an unfinished ticker Routine *)
 let loop_items toks =
   let atomic = ref true in
-  (* state of the ticker Routine being read: 0 none, 1 after first O, 2 after second O = 0
-     (expects C), 3 after C>0 (expects S) *)
+  (* ticker Routine being read: 0 none, 1 after the first O, 2 after the second O = 0 (expects C),
+     3 after C>0 (expects S) *)
   let tstate = ref 0 and tcur = ref [] in
-  let items = ref [] in                (* (position, item) ; registers get position ranges *)
+  let items = ref [] in
   let pos = ref 0 in
   let tick_start = ref 0 in
   let close_tick () = if !tcur <> [] then items := (!tick_start, LTick (List.rev !tcur)) :: !items;
@@ -104,9 +105,8 @@ let loop_items toks =
     incr pos;
     if starts_with "t:" t then begin
       let c = drop 2 t in
-      (match !api_open with Some (_, _, cbs, _) when cbs <> [] && false -> () | _ -> ());
       (match !tstate, c.[0] with
-       | 0, 'O' -> tick_start := !pos; tcur := [c]; tstate := 1
+       | 0, 'O' -> tick_start := !pos; tcur := [c]; if false then () else tstate := 1
        | 1, 'H' | 1, 'T' -> tcur := c :: !tcur
        | 1, 'O' -> tcur := c :: !tcur; if c = "O1" then close_tick () else tstate := 2
        | 2, 'C' -> tcur := c :: !tcur; if c = "C0" then close_tick () else tstate := 3
@@ -123,88 +123,90 @@ let loop_items toks =
     else if t.[0] = '<' then
       (match !api_open with
        | Some (n, p0, cbs, fp) ->
-         (* position: first callback if any; otherwise the op floats between p0 and here *)
          let key = if fp <> 0 then fp else p0 in
-         items := (key, LApi ((if fp = 0 then "~" ^ string_of_int !pos ^ "~" ^ n else n), List.rev cbs, t)) :: !items;
+         items := (key, LApi (n, List.rev cbs, t, !pos, fp = 0)) :: !items;
          api_open := None
        | None -> atomic := false)
   ) toks;
   if !tstate <> 0 then close_tick ();
   (List.sort (fun (a, _) (b, _) -> compare a b) !items, !atomic)
 
-(* ops without callbacks (names "~<endpos>~<name>") may be linearized after any ticker Routine
-   that started before their return marker: enumerate *)
+(* an op without callbacks takes effect somewhere between its two markers: it may be linearized
+   after any ticker Routine that started before its return marker: enumerate *)
 let rec linearizations items =
   match items with
   | [] -> [[]]
-  | (_, (LApi (n, cbs, ret))) :: rest when starts_with "~" n ->
-    let i2 = String.index_from n 1 '~' in
-    let endpos = int_of_string (String.sub n 1 (i2 - 1)) in
-    let name = drop (i2 + 1) n in
-    let it = LApi (name, cbs, ret) in
-    (* place it here, or after each following tick that starts before endpos *)
+  | ((_, LApi (_, _, _, endpos, true)) as it) :: rest ->
     let rec places pre rest =
       (List.map (fun l -> List.rev_append pre (it :: l)) (linearizations rest)) @
       (match rest with
-       | ((p, (LTick _ as tk)) :: r) when p < endpos -> places (tk :: pre) r
+       | (((p, LTick _) as tk) :: r) when p < endpos -> places (tk :: pre) r
        | _ -> []) in
     places [] rest
-  | (_, it) :: rest -> List.map (fun l -> it :: l) (linearizations rest)
-
-let bev_of_cb c = bev_of c     (* S<p>:<cands> | T<was> | PANIC *)
+  | it :: rest -> List.map (fun l -> it :: l) (linearizations rest)
 
 let eval_loop obs =
   let toks = List.filter (fun t -> t <> "E") obs in
   let (items, atomic) = loop_items toks in
   let cands = (try linearizations items with _ -> []) in
-  let cands = (match cands with [] -> [List.map snd items] | l -> if List.length l > 512 then [List.hd l] else l) in
-  (* replay one linearization on the model; answers (ShouldTerminate, choice) are read off the log *)
+  let cands = (match cands with [] -> [items] | l -> if List.length l > 512 then [List.hd l] else l) in
   let events_of cbs = List.filter_map (fun c -> match c.[0] with
-      | 'S' | 'T' -> Some (bev_of_cb c) | _ -> if c = "PANIC" then Some EPanic else None) cbs in
+      | 'S' | 'T' -> Some (bev_of c) | _ -> if c = "PANIC" then Some EPanic else None) cbs in
   let choice_of cbs = (match List.find_opt (fun c -> c.[0] = 'S') cbs with
-      | Some c -> (match bev_of_cb c with
+      | Some c -> (match bev_of c with
           | EStart (p, cs) -> let rec idx i = function [] -> 0 | x :: r -> if x = p then i else idx (i + 1) r in idx 0 cs
           | _ -> 0)
       | None -> 0) in
   let op_of = function
     | LTick cbs -> BTick (List.mem "H1" cbs, nat_of_int (choice_of cbs))
-    | LApi (n, cbs, _) ->
+    | LApi (n, cbs, _, _, _) ->
       (match n.[0] with
        | 'r' -> BReg (n_of_tok (drop 1 n))
        | 'u' -> BUnreg (n_of_tok (drop 1 n), nat_of_int (choice_of cbs))
        | _ -> BTerminate) in
-  let ret_tok s = "<s" ^ (match s.b_sess with Some p -> tok_of_n p | None -> "-") ^ "n" ^ string_of_int (List.length s.b_peers) in
+  let cbs_of = function LTick c | LApi (_, c, _, _, _) -> c in
+  (* the state observed at a return marker is the state after everything that started before the
+     marker: return checks are deferred until the linearization passes the marker's position *)
+  let run_checks state_tok step init lin =
+    let rec flush s p pend = (match pend with
+        | (ret, e) :: r when e < p -> state_tok s = ret && flush s p r
+        | _ -> true)
+    and drop_flushed p pend = List.filter (fun (_, e) -> e >= p) pend in
+    let rec go s pend = function
+      | [] -> List.for_all (fun (ret, _) -> state_tok s = ret) pend
+      | (p, it) :: r ->
+        flush s p pend &&
+        (let pend = drop_flushed p pend in
+         match step s it with
+         | None -> false
+         | Some s' ->
+           let pend = (match it with LApi (_, _, ret, e, _) -> pend @ [(ret, e)] | LTick _ -> pend) in
+           go s' pend r) in
+    go init [] lin in
+  (* 1. against the model: callbacks of every item, session variable and PeersNum at the markers *)
   let replay lin =
-    let rec go s = function
-      | [] -> true
-      | it :: r ->
-        let (s', evs) = bstep s (op_of it) in
-        let ok = (match it with
-            | LTick cbs -> evs = events_of cbs
-            | LApi (_, cbs, ret) -> evs = events_of cbs && ret_tok s' = ret) in
-        ok && go s' r in
-    go b_init lin in
+    run_checks
+      (fun s -> "<s" ^ (match s.b_sess with Some p -> tok_of_n p | None -> "-") ^ "n" ^ string_of_int (List.length s.b_peers))
+      (fun s it -> let (s', evs) = bstep s (op_of it) in if evs = events_of (cbs_of it) then Some s' else None)
+      b_init lin in
+  (* 2. against the specification: the monitor accepts the linearized log, and the session the
+        callbacks leave running is the one observed at the markers *)
   let monitor lin =
-    let log = List.map (fun it -> (op_of it, (match it with LTick cbs | LApi (_, cbs, _) -> events_of cbs))) lin in
-    (* the session the callbacks leave running must be the one observed at each API return *)
-    let rec sess_ok run = function
-      | [] -> true
-      | it :: r ->
-        let cbs = (match it with LTick c | LApi (_, c, _) -> c) in
-        let run' = List.fold_left (fun acc c -> match c.[0] with
-            | 'S' -> (match bev_of_cb c with EStart (p, _) -> tok_of_n p | _ -> acc)
-            | 'T' -> "-" | _ -> acc) run cbs in
-        (match it with
-         | LApi (_, _, ret) ->
-           let i = String.index ret 'n' in String.sub ret 2 (i - 2) = run' && sess_ok run' r
-         | LTick _ -> sess_ok run' r) in
-    base_spec_ok log && sess_ok "-" lin in
+    let log = List.map (fun (_, it) -> (op_of it, events_of (cbs_of it))) lin in
+    let sess_of ret = let i = String.index ret 'n' in String.sub ret 2 (i - 2) in
+    base_spec_ok log &&
+    run_checks (fun run -> run)
+      (fun run it -> Some (List.fold_left (fun acc c -> match c.[0] with
+           | 'S' -> (match bev_of c with EStart (p, _) -> tok_of_n p | _ -> acc)
+           | 'T' -> "-" | _ -> acc) run (cbs_of it)))
+      "-" (List.map (fun (p, it) -> (p, (match it with
+          | LApi (n, c, ret, e, f) -> LApi (n, c, sess_of ret, e, f) | t -> t))) lin) in
   let explained = atomic && List.exists replay cands in
   let spec = atomic && List.exists monitor cands in
   { default_verdict with
     model_obs = (if explained then obs else ["NO-LINEARIZATION-MATCHES-THE-MODEL"]);
     spec_ok = Some spec; model_spec_ok = true;
-    nontrivial = List.exists (function LTick cbs -> List.exists (fun c -> c.[0] = 'S') cbs | _ -> false) (List.map snd items) }
+    nontrivial = List.exists (function (_, LTick cbs) -> List.exists (fun c -> c.[0] = 'S') cbs | _ -> false) items }
 
 let eval inp obs =
   let header, ops = groups inp in
